@@ -258,6 +258,22 @@ impl<N: Ord + Clone + Copy, D: Clone> ArrayBackedIntervalTree<N, D> {
     }
 }
 
+/// Verification hook (only with `--cfg bio_verif`): read-only view of the implicit tree.
+#[cfg(bio_verif)]
+impl<N: Ord + Clone + Copy, D: Clone> ArrayBackedIntervalTree<N, D> {
+    /// `(entries as (start, end, data, max) in array order, max_level, indexed)`.
+    pub fn verif_entries(&self) -> (Vec<(N, N, D, N)>, usize, bool) {
+        (
+            self.entries
+                .iter()
+                .map(|e| (e.interval.start, e.interval.end, e.data.clone(), e.max))
+                .collect(),
+            self.max_level,
+            self.indexed,
+        )
+    }
+}
+
 fn max3<T: Ord>(a: T, b: T, c: T) -> T {
     a.max(b.max(c))
 }
